@@ -81,6 +81,11 @@ func (vs *ValidatorStore) CheckMaliciousValidators(es *evidence.EvidenceStore, g
 				if plusDiff > vs.lastHeight {
 					continue
 				}
+				if es.IsFrozenValidator(baddr) {
+					// frozen already: the record of that offence stays (a verdict's freeze must not be
+					// replaced by one that can be released at once)
+					continue
+				}
 				logger.Detailf("Found validator with missed required votes: %s\n", validator.Address)
 				lvh, err := es.CreateSuspiciousValidator(
 					baddr, evidence.MISSED_REQUIRED_VOTES,
